@@ -53,6 +53,13 @@ TABLE = {
     97: ("eigenvector_centrality(option values)", "res", (S,)), 98: ("louvain(option values)", "res", ()),
     99: ("average_clustering(count_zeros=false)", "res", (S,)), 100: ("single_source(cutoff 0)", "res", ()),
     101: ("modularity(foreign name swapped in)", "res", ()), 102: ("is_partition(foreign name swapped in)", "plain", ()),
+    # every name of the graph, the first one listed twice (a list longer than the node list; all names exist)
+    103: ("get_edges_for_nodes(all names, one repeated)", "res", ()),
+    104: ("get_in_edges_for_nodes(all names, one repeated)", "res", (D,)),
+    105: ("get_out_edges_for_nodes(all names, one repeated)", "res", (D,)),
+    106: ("multi_source(all names, one repeated)", "res", ()), 107: ("multi_source(weighted, all names)", "res", ()),
+    108: ("multi_source(weighted, all names, target, first_only)", "res", ()),
+    109: ("has_nodes(all names, one repeated)", "plain", ()),
 }
 
 
@@ -71,7 +78,7 @@ def supported(req, directed, multi):
 
 WMODES = ["nan", "real", "mixed", "zero", "neg"]
 SHAPES = ["empty", "one", "one_loop", "edgeless", "isolated_plus", "path", "star", "triangle_tail", "parallel",
-          "two_components", "k4", "loops_everywhere", "cycle", "random"]
+          "two_components", "k4", "loops_everywhere", "cycle", "random", "ring25"]
 
 
 def shape_edges(r, shape, loops, multi):
@@ -102,6 +109,11 @@ def shape_edges(r, shape, loops, multi):
         n, es = 3, ([(0, 0), (1, 1), (2, 2)] if loops else []) + [(0, 1), (1, 2)]
     elif shape == "cycle":
         n, es = 5, [(i, (i + 1) % 5) for i in range(5)]
+    elif shape == "ring25":
+        # above the 20-node threshold of the rayon arms (all_pairs, multi_source, the centralities)
+        n = 25
+        es = [(i, (i + 1) % 25) for i in range(25)] + [(r.below(25), r.below(25)) for _ in range(12)]
+        es = [(u, v) for (u, v) in es if u != v or loops]
     else:
         n = 2 + r.below(5)
         for _ in range(r.below(2 * n + 1)):
@@ -117,12 +129,12 @@ class ApiProp(props.BaseProp):
     run_module = None
     harness_mode = "api"
     profiles = ["debug", "release"]
-    quick_n, thorough_n = 560, 3360
-    rule = ("all 8 graph kinds (directed x multi-edge x self-loops) x 14 shapes (empty, one node, one node with a "
+    quick_n, thorough_n = 600, 3600
+    rule = ("all 8 graph kinds (directed x multi-edge x self-loops) x 15 shapes (a 25-node ring with chords - above the 20-node threshold of the rayon arms -, empty, one node, one node with a "
             "self-loop, edgeless, isolated node + component, path with degree-1 tails, star, triangle with a tail, "
             "parallel / antiparallel edges, two components, K4, self-loops on every node, cycle, random) x weights "
             "{unweighted, 1..3, mixed, 0..2 with many zeros, NEGATIVE: drawn from -2,-1,1,2}, names whose sort order differs from insertion order "
-            "(quick tier: 14 x 8 x 5 = 560 graphs, every shape x kind x weight-mode combination once); a negative weight is a graph "
+            "(quick tier: 15 x 8 x 5 = 600 graphs, every shape x kind x weight-mode combination once); a negative weight is a graph "
             "the structure can represent: on it a Result-returning function may answer Err (the shortest-path entry points: "
             "ContradictoryPaths) or a value but must not panic (F22: all_pairs / multi_source did), and "
             "get_all_shortest_paths_involving - no error channel, called like everywhere else with weighted = false AND true, "
@@ -209,6 +221,11 @@ class ApiProp(props.BaseProp):
                         what, out, "WrongMethod" if chan == "res" else "None"))
             elif chan in ("res", "opt") and cls == 2 and out == 0 and code not in (93,):
                 msgs.append("%s returned a value instead of NodeNotFound/None" % what)
+            elif chan == "res" and cls != 2 and out in (4, 12):
+                # the error channel says something false: every name given exists / the kind is supported
+                msgs.append("%s answered %s although %s" % (
+                    what, "NodeNotFound" if out == 4 else "WrongMethod",
+                    "every name it was given is a node of the graph" if out == 4 else "it supports this kind of graph"))
         return msgs[:4]
 
     def shrink_candidates(self, c):
